@@ -151,19 +151,19 @@ type RunSpec struct {
 	Sched    SchedSpec        `json:"sched"`
 	Faults   []simrt.Fault    `json:"faults,omitempty"`
 	NoFinal  bool             `json:"no_final,omitempty"`
-	Extra    *json.RawMessage `json:"extra,omitempty"` // scenario-specific payload (C17/C18/C19)
+	Extra    *json.RawMessage `json:"extra,omitempty"`   // scenario-specific payload (C17/C18/C19)
 	Backend  string           `json:"backend,omitempty"` // "" (mem) | real
 }
 
 // ReplayFile is what VIOLATION lines point at.
 type ReplayFile struct {
-	Property  string  `json:"property"`
-	Signature string  `json:"signature"`
-	Detail    string  `json:"detail"`
-	LogHash   string  `json:"log_hash"`
-	Spec      RunSpec `json:"spec"`
-	Trace     []string `json:"trace_tail,omitempty"`
-	MinimisedFrom string `json:"minimised_from,omitempty"`
+	Property      string   `json:"property"`
+	Signature     string   `json:"signature"`
+	Detail        string   `json:"detail"`
+	LogHash       string   `json:"log_hash"`
+	Spec          RunSpec  `json:"spec"`
+	Trace         []string `json:"trace_tail,omitempty"`
+	MinimisedFrom string   `json:"minimised_from,omitempty"`
 }
 
 // Violation is one monitor firing.
